@@ -115,6 +115,12 @@ import BGV
 #print axioms BGV.C12_distance_is_minimum
 #print axioms BGV.C12_entry
 
+-- C13
+#print axioms BGV.C13_tokenise
+#print axioms BGV.C13_comment_skipped
+#print axioms BGV.C13_stoi_showNat
+#print axioms BGV.C13_written_line
+
 -- C14
 #print axioms BGV.C14_layout
 #print axioms BGV.C14_roundtrip_records
